@@ -111,6 +111,19 @@ func (h *harness) crashcheck(k int) (event, error) {
 	defer os.RemoveAll(copyBase)
 
 	cut := ""
+	if k >= 100 {
+		// crash inside the most recent state save, between "new state file written and closed" and "old state
+		// file removed": both files are on disk. Only meaningful directly after the operation that saved.
+		k = 0
+		if h.removedState != nil && h.removedAt == h.lineNo-1 {
+			_, _, _, stateDir, _ := h.dirs()
+			rel, _ := filepath.Rel(h.base, stateDir)
+			if err := os.WriteFile(filepath.Join(copyBase, rel, h.removedState.name), h.removedState.data, 0644); err != nil {
+				return nil, err
+			}
+			cut = "state-dup/" + h.removedState.name
+		}
+	}
 	if k > 0 {
 		// Only a crash inside the LAST file operation before this point is a reachable state ("every prefix
 		// of the file-operation sequence"): the file modified most recently is the one that may be cut.
@@ -170,6 +183,9 @@ func (h *harness) crashcheck(k int) (event, error) {
 	}
 	ev["cut"] = cut
 	ev["disk"] = describeDisk(copyBase, cut)
+	if strings.HasPrefix(cut, "state-dup/") {
+		cut = "" // for the oracles below: nothing was cut, everything acknowledged must be there
+	}
 
 	// the recovered service gets its own gates
 	oldGate := manager.VerifGate
@@ -194,7 +210,12 @@ func (h *harness) crashcheck(k int) (event, error) {
 		return ev, nil
 	}
 	ev["restart"] = "ok"
-	defer rh.mgr.Close()
+	closed := false
+	defer func() {
+		if !closed {
+			rh.mgr.Close()
+		}
+	}()
 
 	st0, err := rh.sync()
 	if err != nil {
@@ -335,6 +356,99 @@ func (h *harness) crashcheck(k int) (event, error) {
 			if ok && want != mat[uint(o.id)] {
 				h.complain("C12", "after restart (cut %q) tag %s (%q) says %v for stream %d, its definition evaluates to %v", cut, t.Name, t.Definition, mat[uint(o.id)], o.id, want)
 			}
+		}
+	}
+	// --- "... and then any further history": one more acknowledged call on the recovered service, a clean
+	//     shutdown and a second restart must show that call and everything that was there before it
+	if cut == "" {
+		const after = "tag/zzafter"
+		if err := rh.mgr.AddTag(after, "sport:2999", "#123456"); err == nil {
+			want := map[string]string{}
+			for _, t := range rh.mgr.ListTags() {
+				want[t.Name] = t.Definition + "|" + t.Color + "|" + strings.Join(t.Converters, ",")
+			}
+			wantCfg := rh.mgr.Config()
+			wantHooks := strings.Join(rh.mgr.ListPcapProcessorWebhooks(), ",")
+			weps := []string{}
+			for _, e := range rh.mgr.ListPcapOverIPEndpoints() {
+				weps = append(weps, e.Address)
+			}
+			sort.Strings(weps)
+			// park/settle is not needed for a shutdown: release whatever is waiting so that Close can finish
+			for n := 0; n < 50; n++ {
+				released := false
+				for _, kind := range []string{"import", "tag", "convert", "merge"} {
+					if rg.at(kind) {
+						rg.release(kind)
+						released = true
+					}
+				}
+				if !released {
+					time.Sleep(2 * time.Millisecond)
+					if !rg.at("import") && !rg.at("tag") && !rg.at("convert") && !rg.at("merge") {
+						st := rh.mgr.VerifDump()
+						if len(running(st)) == 0 {
+							break
+						}
+					}
+				}
+			}
+			rh.mgr.Close()
+			closed = true
+			rg2 := newGates()
+			manager.VerifGate = rg2.hook
+			rh2 := &harness{base: copyBase, g: rg2, pcaps: h.pcaps, tagDefs: map[string]string{}, ords: map[string]int{},
+				views: map[int]*viewRec{}, jobHolds: map[string][]string{}, imported: map[string]bool{}, oracle: nil, lineNo: h.lineNo}
+			var err2 error
+			func() {
+				defer func() {
+					if e := recover(); e != nil {
+						err2 = fmt.Errorf("panic: %v", e)
+					}
+				}()
+				err2 = rh2.start()
+			}()
+			if err2 != nil {
+				h.complain("C12", "second restart (after one more acknowledged call and a clean shutdown; first from %q) fails: %v", ev["cut"], err2)
+				return ev, nil
+			}
+			got := map[string]string{}
+			for _, t := range rh2.mgr.ListTags() {
+				got[t.Name] = t.Definition + "|" + t.Color + "|" + strings.Join(t.Converters, ",")
+			}
+			for n, w := range want {
+				if g, ok := got[n]; !ok {
+					h.complain("C12", "tag %s acknowledged by the recovered service (first restart from %q) is gone after a clean shutdown and a second restart", n, ev["cut"])
+				} else if g != w {
+					h.complain("C12", "tag %s differs after the second restart (first from %q): %q, acknowledged %q", n, ev["cut"], g, w)
+				}
+			}
+			if len(got) != len(want) {
+				h.complain("C12", "second restart (first from %q) shows %d tags, %d were acknowledged", ev["cut"], len(got), len(want))
+			}
+			if c := rh2.mgr.Config(); c != wantCfg {
+				h.complain("C12", "setting differs after the second restart (first from %q)", ev["cut"])
+			}
+			if hk := strings.Join(rh2.mgr.ListPcapProcessorWebhooks(), ","); hk != wantHooks {
+				h.complain("C12", "webhooks differ after the second restart (first from %q): %q, acknowledged %q", ev["cut"], hk, wantHooks)
+			}
+			geps := []string{}
+			for _, e := range rh2.mgr.ListPcapOverIPEndpoints() {
+				geps = append(geps, e.Address)
+			}
+			sort.Strings(geps)
+			if strings.Join(geps, ",") != strings.Join(weps, ",") {
+				h.complain("C12", "pcap-over-ip endpoints differ after the second restart (first from %q): %v, acknowledged %v", ev["cut"], geps, weps)
+			}
+			for n := 0; n < 50; n++ {
+				for _, kind := range []string{"import", "tag", "convert", "merge"} {
+					if rg2.at(kind) {
+						rg2.release(kind)
+					}
+				}
+				time.Sleep(time.Millisecond)
+			}
+			rh2.mgr.Close()
 		}
 	}
 	return ev, nil
